@@ -399,6 +399,13 @@ def main(run: core.Run):
         if thorough and topo != 'w2':
             ops = alphabet(topo, rich=True)
         seqs = list(sequences(ops, maxlen))
+        if thorough and topo != 'w2':
+            # rich alphabets: all sequences up to length 2, every 16th of
+            # length 3 (rotating with the seed)
+            seqs = [s for s in seqs if len(s) <= 2] + \
+                [s for s in seqs if len(s) == 3][run.seed % 16::16]
+            run.cap('thorough: every 16th length-3 sequence for the rich '
+                    'w3 / w4grid alphabets')
         if not thorough:
             # quick: all sequences up to length 2, and length-3 sequences
             # rotated by the seed so that several seeds cover them all
